@@ -153,11 +153,63 @@ def run(ctx, report):
             r4.finding(f"BBAN.random:pinned-{comp}-{key[2].replace(' ', '-')}", f"BBAN.random({cc!r}, {comp}={pin!r}, use_registry={use_registry}) can return a BBAN whose {comp} is {got!r}: {how} "
                        f"({len(ccs)} countr{'y' if len(ccs) == 1 else 'ies'}: {', '.join(ccs[:8])}{', ...' if len(ccs) > 8 else ''})", f_brand.where,
                        witness={"country": cc, comp: pin, "use_registry": use_registry})
+    # ------------------------------------------------------------------ R13-registry
+    r5 = report.rule("R13-registry", floor=30, what="a registry-based draw belongs to the drawn bank: the BBAN's bank-identifying field equals the entry's bank code")
+    by_country = reg.index_by_country()
+    bad5 = {}
+    for cc in countries:
+        entries = by_country.get(cc)
+        if not entries or any(not e.get("bank_code") for e in entries):
+            continue   # the clause covers countries all of whose entries carry a bank code
+        spec = reg.countries[cc]
+        comps_l = reg.lookup_components(cc)
+        if any(c not in fields_of(reg, cc) for c in comps_l):
+            continue
+        outs = _explore_random(ctx, bban, cc, True, {})
+        n_ok = 0
+        for o in outs:
+            if o.kind != "return" or not isinstance(o.value, Obj):
+                continue
+            picked = None
+            for e in o.events:
+                if e["kind"] == "random_pick" and isinstance(e["picked"], dict):
+                    picked = e["picked"]
+            if picked is None:
+                bad5.setdefault("no-entry", []).append((cc, None, None))
+                continue
+            val = o.value.strval
+            key = []
+            for c in comps_l:
+                a, b, _ = fields_of(reg, cc)[c]
+                part = _slice(val, a, b)
+                key.append(part)
+            if all(isinstance(k, str) for k in key):
+                got = "".join(key)
+                if got != picked["bank_code"]:
+                    bad5.setdefault("mismatch", []).append((cc, picked["bank_code"], got))
+                else:
+                    n_ok += 1
+            else:
+                bad5.setdefault("random-field", []).append((cc, picked["bank_code"], repr(key)[:80]))
+        r5.instance({"country": cc, "draws": len(outs), "agree": n_ok} if cc in ("SI", "DE", "PL") else None)
+    for kind, hits in bad5.items():
+        cc, code, got = hits[0]
+        ccs = sorted({h[0] for h in hits})
+        if kind == "no-entry":
+            r5.finding("BBAN.random:registry-unused", f"BBAN.random({cc!r}, use_registry=True) returns without drawing a bank entry ({', '.join(ccs[:6])})", f_brand.where)
+        else:
+            r5.finding("BBAN.random:registry-bank", f"BBAN.random({cc!r}, use_registry=True) draws the entry with bank code {code!r} but returns a BBAN whose bank-identifying "
+                       f"field is {got}: the result does not belong to the listed bank ({len(ccs)} countr{'y' if len(ccs) == 1 else 'ies'}: {', '.join(ccs[:8])})",
+                       f_brand.where, witness={"country": cc, "entry bank_code": code})
     report.analysed = {"functions_scanned": len(scan), "countries": len(countries)}
     report.not_decided += ["that 100 retries suffice; 'for every seed a valid result' beyond the must-pass-through validation",
                            "structure conformance of BBAN.random for pinned values of the wrong character class",
                            "retry loops are evaluated for two iterations (iterations carry no state)"]
     report.assumptions += ["rstr.xeger draws literals, ranges, \\d and bounded repeats through the supplied generator (read in rstr 3.2.2); random.Random is deterministic given its state"]
+
+
+def fields_of(reg, cc):
+    return country_fields(reg, cc)
 
 
 def _slice(val, a, b):
